@@ -231,7 +231,7 @@ mk('C06', ['MixInv','MixDP'], [C06_total,
    lifted('C06_plan_1','MixDP','plan_1',''), lifted('C06_plan_ge2','MixDP','plan_ge2','facts of the concrete planner model: the step kind and length it prescribes'),
    lifted('C06_plan_2','MixDP','plan_2',''), lifted('C06_C_ics','MixDP','C_ics','cost recurrence, restart checkpoint'), lifted('C06_C_adj','MixDP','C_adj','cost recurrence, adjoint-dependency checkpoint'),
    lifted('C06_planC_unfold_partial','MixDP','planC_unfold','PARTIAL: the planner value is the minimum over the candidates of its own recurrence (one-level unfolding); that no executable schedule whatsoever does better (Maddison 2024, Thm 1) is not proved')])
-mk('C07', ['RevCost','RevConv','RevBridge4','RevolveRun','Opt0Table','DiskCost','DiskCount'], [
+mk('C07', ['RevCost','RevConv','RevBridge4','RevolveRun','Opt0Table','DiskCost','DiskCount','HRevTable','HRevCost','HRevCount'], [
    lifted('C07_revolve_forward_total','RevolveRun','revolve_forward_total','Revolve on the extracted model, every cost vector with uf > 0: forward steps at exhaustion = N + P s (N-1), P = the step-count DP (Opt0Table.P: minimum over all first splits); reversed steps = N by the run theorem; no DISK traffic (budget 0)'),
    lifted('C07_revolve_table_optimum','RevolveRun','revolve_table_optimum','... and the entry of the extracted get_opt_0_table for the whole problem is N ub + uf P s (N-1): stream cost uf*fwd + ub*N = table optimum + N uf, the memory-only optimum'),
    lifted('C07_opt0_values','Opt0Table','opt0_values','every entry of the table the generators read is (l+1) ub + uf P m l'),
@@ -245,7 +245,14 @@ mk('C07', ['RevCost','RevConv','RevBridge4','RevolveRun','Opt0Table','DiskCost',
    lifted('C07_disk_stream_counts','DiskCount','disk_stream_counts','... because the executor counters at exhaustion are the counts of the operation list (DiskRevolve and PeriodicDiskRevolve alike)'),
    lifted('C07_blk_cost_lower_bound','DiskCost','Blk_cost_lb','(the lower bounds) every memory block ...'),
    lifted('C07_dblk_cost_lower_bound','DiskCost','DBlk_cost_lb','... and every disk block'),
-   lifted('C07_hrevolve_partial','RevCost','revolve_work','PARTIAL: for HRevolve (get_hopt_table) the cost theorem and monotonicity in the number of disk units are not proved: correspondence + clean-DP oracle only; the orderings between the classes (disk_le_revolve, periodic_ge_disk) are stated on the operation lists, whose counts the stream realises (C07_disk_stream_counts); (this lemma is the structural work formula the Revolve theorem rests on)'),
+   lifted('C07_hrevolve_stream_cost','HRevCount','hrevolve_stream_cost','HREVOLVE, THE STREAM (1 <= ram, 0 <= disk, 0 < uf, 0 <= wd, rd; ub unconstrained): once the schedule is exhausted, uf * (forward steps executed) + ub * N + wd * (checkpoints written to DISK) + rd * (checkpoints loaded from DISK), read off the reference executor, equals C(disk, N-1) + N uf, C the H-Revolve recurrence (HRevTable.Cm / Bv), and no operation list of the grammar HBd with that disk budget costs less'),
+   lifted('C07_hrevolve_optimal_in_grammar','HRevCost','hrevolve_optimal','HREVOLVE, operation lists: the list the extracted hrevolve produces is in the grammar HRevCost.HBd (HRevBlk.HB, whose every list the executor accepts, indexed by the number of free disk slots; a disk write is always followed by the Forward that stores it), costs exactly C(disk, l) + (l+1) uf and no list of the grammar with that budget costs less.  PARTIAL with respect to the property text in one respect only: "the optimum of the hierarchical adjoint problem" is here the optimum over the grammar HBd (nested splits, the right part with one disk slot fewer, memory-only blocks at the leaves), not over every conceivable action stream'),
+   lifted('C07_hopt_table_values','HRevTable','hopt_values','... because the tables get_hopt_table builds (two levels, w0 = r0 = 0 as HRevolve passes them) hold exactly these values: level 0 = the memory-only optimum val m l, optp[1][l][m] = B m l, opt[1][l][m] = C m l with B m l = min(val c0 l, min_j (j uf + C (m-1) (l-j) + rd + B m (j-1))), C m l = min(val c0 l, wd + B m l), C 0 = val c0'),
+   lifted('C07_hrevolve_more_disk','HRevCost','hrevolve_more_disk','cost(HRevolve with d\' disk units) <= cost(HRevolve with d <= d\' units), same l, ram and costs'),
+   lifted('C07_hrevolve_le_revolve','HRevCost','hrevolve_le_revolve','cost(HRevolve) <= cost(Revolve), same l, ram and costs'),
+   lifted('C07_hrevolve_le_disk_revolve','HRevCost','hrevolve_le_disk_revolve','cost(HRevolve with at least l disk units) <= cost(DiskRevolve): the Disk-Revolve grammar is the sub-grammar of HBd whose left parts are memory-only'),
+   lifted('C07_hbd_cost_lower_bound','HRevCost','HBd_cost_lb','(the lower bound) every list of HBd with d free disk slots for l steps costs at least C(d, l) + (l+1) uf (B(d, l) + (l+1) uf when its checkpoint is on disk already)'),
+   lifted('C07_hrev_stream_counts','HRevCount','hrev_stream_counts','the executor counters at exhaustion are the counts of the operation list, for every list of HBd'),
    lifted('C07_argmin_min','RevCost','argmin_min','the split chosen is a minimiser'), lifted('C07_argmin_affine','RevCost','argmin_affine','the split does not depend on uf, ub')])
 C09_runs = """(* unlimited adjoint calculations, each executable: the run theorems hold for every number k of further requests *)
 Theorem C09_single_memory_passes : forall (N : Z), 1 <= N -> N <= maxsize -> forall k : nat,
